@@ -182,7 +182,7 @@ impl Scenario for HistScenario {
 		64
 	}
 	fn setup(&self) -> HState {
-		let shared = Arc::new(Shared {
+		let shared = Arc::new(Shared { rx_split: false,
 			sent: Default::default(),
 			send_calls: Default::default(),
 			fail_send_at: None,
@@ -516,7 +516,7 @@ fn repeat_cycle(cycle: &[Ev], reps: usize) -> Vec<[usize; 4]> {
 			100_000
 		}
 		fn setup(&self) -> Self::State {
-			let shared = Arc::new(Shared {
+			let shared = Arc::new(Shared { rx_split: false,
 				sent: Default::default(),
 				send_calls: Default::default(),
 				fail_send_at: None,
@@ -681,7 +681,7 @@ impl Scenario for DropUnderBackpressure {
 		mask_tx
 	}
 	fn setup(&self) -> DbState {
-		let shared = Arc::new(Shared {
+		let shared = Arc::new(Shared { rx_split: false,
 			sent: Default::default(),
 			send_calls: Default::default(),
 			fail_send_at: None,
